@@ -1361,6 +1361,224 @@ theorem openIterate_eq (m : Method) (hp : m.prog.isProducer = true) (hi : m.init
 
 end HttpSession
 
+/-! ### exchange sessions: the op machines replay `Engine.Pipe.exchangeAll` / `Engine.Http.exchangeAll` -/
+section PipeExchange
+open PipeM Engine.Aux
+variable (env : Env) (p : Prog)
+
+theorem playedFrom_succ (k n : Nat) : playedFrom p k (n + 1) = p.stepAt k :: playedFrom p (k + 1) n := by
+  simp [playedFrom, List.range'_succ]
+
+/-- an exchange session between two inputs -/
+structure XReady (s : St) (cl : List Log) (sch : Schema) : Prop where
+  closed : s.closed = false
+  live : s.live = true
+  ws : s.wschema = none ∨ s.wschema = some sch
+  unread : s.unread = logItems cl
+
+theorem wrongSchema_same (s : St) (b : IBatch) (h : s.wschema = none ∨ s.wschema = some b.schema) :
+    wrongSchema s b = false := by
+  unfold wrongSchema
+  rcases h with h | h <;> simp [h]
+
+theorem sendRecv_x (s : St) (cl : List Log) (b b' : IBatch) (h : XReady s cl b.schema)
+    (hb : coerceInput env p.decl b = .ok b') (op : String) :
+    sendRecv env p op s b =
+      (match runStep p s.k with
+       | .cont items => recv (served { s with wschema := some b.schema, writes := s.writes + 1 } b'.schema true) items
+       | .done items => recv (served { s with wschema := some b.schema, writes := s.writes + 1 } b'.schema false) items
+       | .fail items => recv (served { s with wschema := some b.schema, writes := s.writes + 1 } b'.schema false) items) := by
+  unfold sendRecv
+  rw [if_neg (by simp [h.closed]), if_neg (by simp [wrongSchema_same s b h.ws])]
+  simp only
+  rw [serveBatch_ok env p { s with wschema := some b.schema, writes := s.writes + 1 } b b' h.live hb]
+  cases runStep p s.k <;> rfl
+
+theorem exchange_emit (s : St) (cl : List Log) (b b' : IBatch) (h : XReady s cl b.schema)
+    (hb : coerceInput env p.decl b = .ok b') (hx : p.isProducer = false) (d : Batch) (hact : (p.stepAt s.k).act = .emit d) :
+    exchange env p s b =
+      ({ served { s with wschema := some b.schema, writes := s.writes + 1 } b'.schema true with
+          unread := logItems (p.stepAt s.k).post },
+       Sem.lg (cl ++ (p.stepAt s.k).logs) ++ [.data d]) := by
+  have hrs : runStep p s.k = .cont (logItems (p.stepAt s.k).logs ++ [Item.data d] ++ logItems (p.stepAt s.k).post) := by
+    simp [runStep, hx, processExchangeStep, processStep, hact]
+  unfold exchange
+  rw [sendRecv_x env p s cl b b' h hb]
+  simp only [hrs]
+  rw [recv_data _ cl _ _ d (by simp [served, h.unread])]
+
+theorem exchange_fail (s : St) (cl : List Log) (b b' : IBatch) (h : XReady s cl b.schema)
+    (hb : coerceInput env p.decl b = .ok b') (e : Exn) (hrs : runStep p s.k = .fail [.err e]) :
+    (exchange env p s b).2 = Sem.lg cl ++ [errEv e] ∧ (exchange env p s b).1.closed = true := by
+  unfold exchange
+  rw [sendRecv_x env p s cl b b' h hb]
+  simp only [hrs]
+  rw [recv_err _ cl e (by simp [served, h.unread])]
+  simp [close, served, h.closed, drainAll]
+
+
+theorem drainAll_logItems (cl : List Log) : drainAll (logItems cl) = Sem.lg cl := by
+  induction cl with
+  | nil => rfl
+  | cons l r ih => simp only [logItems, List.map_cons, drainAll, Sem.lg] at ih ⊢; rw [ih]
+
+/-- in exchange mode every step that does not emit fails with one EXCEPTION batch -/
+theorem runStep_fail (hx : p.isProducer = false) (k : Nat) (hne : ∀ d, (p.stepAt k).act ≠ .emit d) :
+    ∃ e, runStep p k = .fail [.err e] ∧
+      processExchangeStep (p.stepAt k) = .fail [.err e] := by
+  cases hact : (p.stepAt k).act with
+  | emit d => exact absurd hact (hne d)
+  | finish => exact ⟨finishOnExchangeExn, by simp [runStep, hx, processExchangeStep, hact], by simp [processExchangeStep, hact]⟩
+  | emitFinish d => exact ⟨finishOnExchangeExn, by simp [runStep, hx, processExchangeStep, hact], by simp [processExchangeStep, hact]⟩
+  | raise e => exact ⟨e, by simp [runStep, hx, processExchangeStep, processStep, hact], by simp [processExchangeStep, processStep, hact]⟩
+  | nothing => exact ⟨noDataExn, by simp [runStep, hx, processExchangeStep, processStep, hact], by simp [processExchangeStep, processStep, hact]⟩
+
+theorem run_exchange (hx : p.isProducer = false) (sch : Schema) : ∀ (inputs : List IBatch) (s : St) (cl : List Log),
+    XReady s cl sch → (∀ b ∈ inputs, b.schema = sch ∧ ∃ b', coerceInput env p.decl b = .ok b') →
+    AllEmit (playedFrom p s.k inputs.length).dropLast →
+    (run env p s (inputs.map Op.send ++ [Op.close])).2.flatten =
+      Pipe.exchangeAll (logItems cl) (playedFrom p s.k inputs.length) := by
+  intro inputs
+  induction inputs with
+  | nil =>
+    intro s cl h _ _
+    simp [run, step, close, h.closed, h.unread, playedFrom, Pipe.exchangeAll, drainAll_logItems, drainLogs_logs]
+  | cons b rest ih =>
+    intro s cl h hin hall
+    obtain ⟨hsch, b', hb⟩ := hin b (by simp)
+    have h' : XReady s cl b.schema := by rw [hsch]; exact h
+    simp only [List.length_cons, playedFrom_succ] at hall ⊢
+    simp only [List.map_cons, List.cons_append, run, step, List.flatten_cons]
+    by_cases hem : ∃ d, (p.stepAt s.k).act = .emit d
+    · obtain ⟨d, hact⟩ := hem
+      rw [exchange_emit env p s cl b b' h' hb hx d hact]
+      simp only
+      have hall' : AllEmit (playedFrom p (s.k + 1) rest.length).dropLast := by
+        intro x hxm
+        apply hall x
+        cases hl : playedFrom p (s.k + 1) rest.length with
+        | nil => rw [hl] at hxm; simp at hxm
+        | cons y l => rw [hl] at hxm; simp [List.dropLast]; right; exact hxm
+      have := ih { served { s with wschema := some b.schema, writes := s.writes + 1 } b'.schema true with
+          unread := logItems (p.stepAt s.k).post } (p.stepAt s.k).post
+        ⟨by simp [served, h.closed], by simp [served], by simp [served, hsch], by simp [served]⟩
+        (fun x hxm => hin x (by simp [hxm])) (by simpa [served] using hall')
+      simp only [served] at this ⊢
+      rw [this]
+      simp only [Pipe.exchangeAll, Pipe.exchangeOne, processExchangeStep, processStep, hact]
+      rw [regroup, read_logs_data]
+    · have hne : ∀ d, (p.stepAt s.k).act ≠ .emit d := fun d hd => hem ⟨d, hd⟩
+      obtain ⟨e, hrs, hpx⟩ := runStep_fail p hx s.k hne
+      have hrest : rest = [] := by
+        cases rest with
+        | nil => rfl
+        | cons y l =>
+          exfalso
+          obtain ⟨d, hd⟩ := hall (p.stepAt s.k) (by simp [playedFrom_succ])
+          exact hne d hd
+      subst hrest
+      obtain ⟨h1, h2⟩ := exchange_fail env p s cl b b' h' hb e hrs
+      simp only [List.map_nil, List.nil_append, run, step, close, h2, if_true, List.flatten_cons, List.flatten_nil,
+        List.append_nil, Pipe.exchangeAll, Pipe.exchangeOne, hpx]
+      rw [h1, read_logs_err]
+
+end PipeExchange
+
+section HttpExchange
+open HttpM Engine.Aux
+variable (c : Cfg) (p : Prog)
+
+theorem lg_noerr (post : List Log) : (Sem.lg post).any isError = false := by
+  induction post with
+  | nil => rfl
+  | cons l r ih => simp only [Sem.lg, List.map_cons, List.any_cons] at ih ⊢; rw [ih]; rfl
+
+theorem readX_logs (ls : List Log) (xs : List Item) :
+    readX (logItems ls ++ xs) = (Sem.lg ls ++ (readX xs).1, (readX xs).2) := by
+  induction ls with
+  | nil => simp [logItems, Sem.lg]
+  | cons l r ih =>
+    simp only [logItems, List.map_cons, List.cons_append, readX, Sem.lg] at ih ⊢
+    rw [ih]
+
+theorem readX_emit (a post : List Log) (d : Batch) :
+    readX (logItems a ++ [Item.data d] ++ logItems post) = (Sem.lg a ++ (Sem.lg post ++ [Ev.data d]), true) := by
+  rw [List.append_assoc, readX_logs]
+  simp only [List.singleton_append, readX, trailing_logs, lg_noerr, Bool.false_eq_true, if_false]
+
+theorem send_emit (s : St) (pos : Nat) (b b' : IBatch) (ht : s.tok = some pos)
+    (hb : coerceInput c.env p.decl b = .ok b') (hx : p.isProducer = false) (d : Batch)
+    (hact : (p.stepAt pos).act = .emit d) :
+    send c p s b =
+      ({ s with slog := s.slog ++ [.process pos b'.schema], reqs := s.reqs + 1, tok := some (pos + 1) },
+       Sem.lg (p.stepAt pos).logs ++ (Sem.lg (p.stepAt pos).post ++ [Ev.data d])) := by
+  have hsv : serve c p pos b =
+      (logItems (p.stepAt pos).logs ++ [Item.data d] ++ logItems (p.stepAt pos).post, [.process pos b'.schema]) := by
+    simp [serve, hx, hb, runStep, processExchangeStep, processStep, hact]
+  simp only [send, ht, hsv, readX_emit, hx]
+  simp
+
+theorem send_fail (s : St) (pos : Nat) (b b' : IBatch) (ht : s.tok = some pos)
+    (hb : coerceInput c.env p.decl b = .ok b') (hx : p.isProducer = false) (e : Exn)
+    (hrs : runStep p pos = .fail [.err e]) :
+    (send c p s b).2 = [errEv e] := by
+  have hsv : (serve c p pos b).1 = [.err e] := by simp [serve, hx, hb, hrs]
+  simp only [send, ht, hsv, readX]
+  simp [errEv]
+
+theorem hrun_exchange (hx : p.isProducer = false) : ∀ (inputs : List IBatch) (s : St) (pos : Nat),
+    s.tok = some pos → (∀ b ∈ inputs, ∃ b', coerceInput c.env p.decl b = .ok b') →
+    AllEmit (playedFrom p pos inputs.length).dropLast →
+    (run c p s (inputs.map Op.send)).2.flatten = Http.exchangeAll (playedFrom p pos inputs.length) := by
+  intro inputs
+  induction inputs with
+  | nil => intro s pos _ _ _; simp [run, playedFrom, Http.exchangeAll]
+  | cons b rest ih =>
+    intro s pos ht hin hall
+    obtain ⟨b', hb⟩ := hin b (by simp)
+    simp only [List.length_cons, playedFrom_succ] at hall ⊢
+    simp only [List.map_cons, run, step, List.flatten_cons]
+    by_cases hem : ∃ d, (p.stepAt pos).act = .emit d
+    · obtain ⟨d, hact⟩ := hem
+      rw [send_emit c p s pos b b' ht hb hx d hact]
+      simp only
+      have hall' : AllEmit (playedFrom p (pos + 1) rest.length).dropLast := by
+        intro x hxm
+        apply hall x
+        cases hl : playedFrom p (pos + 1) rest.length with
+        | nil => rw [hl] at hxm; simp at hxm
+        | cons y l => rw [hl] at hxm; simp [List.dropLast]; right; exact hxm
+      rw [ih _ (pos + 1) rfl (fun x hxm => hin x (by simp [hxm])) hall']
+      simp only [Http.exchangeAll, Http.exchangeOne, processExchangeStep, processStep, hact]
+      rw [show logItems (p.stepAt pos).logs ++ [Item.data d] ++ logItems (p.stepAt pos).post =
+        logItems (p.stepAt pos).logs ++ ([Item.data d] ++ logItems (p.stepAt pos).post) from List.append_assoc _ _ _,
+        readExchange_logs]
+      simp [Http.readExchange, trailing_logs]
+    · have hne : ∀ d, (p.stepAt pos).act ≠ .emit d := fun d hd => hem ⟨d, hd⟩
+      obtain ⟨e, hrs, hpx⟩ := runStep_fail p hx pos hne
+      have hrest : rest = [] := by
+        cases rest with
+        | nil => rfl
+        | cons y l =>
+          exfalso
+          obtain ⟨d, hd⟩ := hall (p.stepAt pos) (by simp [playedFrom_succ])
+          exact hne d hd
+      subst hrest
+      simp only [List.map_nil, run, List.flatten_nil, List.append_nil, Http.exchangeAll, Http.exchangeOne, hpx,
+        Http.readExchange]
+      rw [send_fail c p s pos b b' ht hb hx e hrs]
+
+
+theorem parseInit_token (ls : List Log) (pos : Nat) :
+    Http.parseInit (logItems ls ++ [Item.token pos]) = ⟨Sem.lg ls, [], some pos, none⟩ := by
+  induction ls with
+  | nil => rfl
+  | cons l r ih =>
+    simp only [logItems, List.map_cons, List.cons_append, Http.parseInit, Sem.lg] at ih ⊢
+    rw [ih]
+
+end HttpExchange
+
 end Aux
 
 open Aux
@@ -1575,6 +1793,92 @@ theorem C10_producer_http_session (c : HttpM.Cfg) (m : Method) (hd : m.prog.decl
       have h2 : restOf [Ev.header h] = [Ev.header h] := rfl
       rw [h1, h2, hev, this]
       rfl
+
+theorem notProducer (p : Prog) (h : p.decl ≠ []) : p.isProducer = false := by
+  unfold Prog.isProducer
+  cases hd : p.decl with
+  | nil => exact absurd hd h
+  | cons x r => rfl
+
+/-- Socket family, the op machine: an exchange session fed conforming inputs (all written with one schema — the input
+IPC stream's — and each passing the coercion) and then closed, where only the last input may meet a step that does not
+emit, IS `Engine.Pipe.exchangeAll` on the steps those inputs play; hence one output per input, and `finish` refused. -/
+theorem C10_exchange_pipe_session (env : Env) (m : Method) (inputs : List IBatch) (sch : Schema)
+    (hx : m.prog.decl ≠ []) (hi : m.init = none)
+    (hin : ∀ b ∈ inputs, b.schema = sch ∧ ∃ b', coerceInput env m.prog.decl b = .ok b')
+    (hall : AllEmit (playedFrom m.prog 0 inputs.length).dropLast) :
+    ∃ s0, (PipeM.openS m).2 = some s0 ∧
+      (PipeM.run env m.prog s0 (inputs.map PipeM.Op.send ++ [PipeM.Op.close])).2.flatten =
+        Pipe.exchangeAll s0.unread (playedFrom m.prog 0 inputs.length) ∧
+      datasOf (PipeM.run env m.prog s0 (inputs.map PipeM.Op.send ++ [PipeM.Op.close])).2.flatten =
+        exchanged (playedFrom m.prog 0 inputs.length) ∧
+      restOf (PipeM.run env m.prog s0 (inputs.map PipeM.Op.send ++ [PipeM.Op.close])).2.flatten =
+        exchangeEnd (playedFrom m.prog 0 inputs.length) ∧
+      (AllEmit (playedFrom m.prog 0 inputs.length) →
+        (datasOf (PipeM.run env m.prog s0 (inputs.map PipeM.Op.send ++ [PipeM.Op.close])).2.flatten).length
+          = inputs.length) := by
+  have hnp := notProducer m.prog hx
+  have main : ∀ (il : List Log), (PipeM.openS m).2 = some (PipeM.st0 (logItems il) true) →
+      ∃ s0, (PipeM.openS m).2 = some s0 ∧
+      (PipeM.run env m.prog s0 (inputs.map PipeM.Op.send ++ [PipeM.Op.close])).2.flatten =
+        Pipe.exchangeAll s0.unread (playedFrom m.prog 0 inputs.length) ∧
+      datasOf (PipeM.run env m.prog s0 (inputs.map PipeM.Op.send ++ [PipeM.Op.close])).2.flatten =
+        exchanged (playedFrom m.prog 0 inputs.length) ∧
+      restOf (PipeM.run env m.prog s0 (inputs.map PipeM.Op.send ++ [PipeM.Op.close])).2.flatten =
+        exchangeEnd (playedFrom m.prog 0 inputs.length) ∧
+      (AllEmit (playedFrom m.prog 0 inputs.length) →
+        (datasOf (PipeM.run env m.prog s0 (inputs.map PipeM.Op.send ++ [PipeM.Op.close])).2.flatten).length
+          = inputs.length) := by
+    intro il hopen
+    have key := run_exchange env m.prog hnp sch inputs (PipeM.st0 (logItems il) true) il
+      ⟨rfl, rfl, Or.inl rfl, rfl⟩ hin hall
+    have c10 := C10_exchange il (playedFrom m.prog 0 inputs.length)
+    have hk0 : (PipeM.st0 (logItems il) true).k = 0 := rfl
+    rw [hk0] at key
+    refine ⟨_, hopen, ?_, ?_, ?_, ?_⟩
+    · rw [key]; rfl
+    · rw [key]; exact c10.1
+    · rw [key]; exact c10.2.1
+    · intro ha
+      rw [key, c10.1, (c10.2.2.2.2.1 ha).1]
+      simp [playedFrom]
+  cases hh : m.header with
+  | none => exact main m.initLogs (by simp [PipeM.openS, hh, hi])
+  | some h => exact main [] (by simp [PipeM.openS, hh, hi, logItems])
+
+/-- HTTP, the op machine: the same for one request per input -/
+theorem C10_exchange_http_session (c : HttpM.Cfg) (m : Method) (inputs : List IBatch)
+    (hx : m.prog.decl ≠ []) (hi : m.init = none)
+    (hin : ∀ b ∈ inputs, ∃ b', coerceInput c.env m.prog.decl b = .ok b')
+    (hall : AllEmit (playedFrom m.prog 0 inputs.length).dropLast) :
+    ∃ s0, (HttpM.openS c m).2 = some s0 ∧
+      (HttpM.run c m.prog s0 (inputs.map HttpM.Op.send)).2.flatten =
+        Http.exchangeAll (playedFrom m.prog 0 inputs.length) ∧
+      datasOf (HttpM.run c m.prog s0 (inputs.map HttpM.Op.send)).2.flatten =
+        exchanged (playedFrom m.prog 0 inputs.length) ∧
+      restOf (HttpM.run c m.prog s0 (inputs.map HttpM.Op.send)).2.flatten =
+        exchangeEnd (playedFrom m.prog 0 inputs.length) ∧
+      (AllEmit (playedFrom m.prog 0 inputs.length) →
+        (datasOf (HttpM.run c m.prog s0 (inputs.map HttpM.Op.send)).2.flatten).length = inputs.length) := by
+  have hnp := notProducer m.prog hx
+  have hbody : (HttpM.initBody c m).1 = logItems (HttpM.sinkLogs m) ++ [Item.token 0] := by
+    simp [HttpM.initBody, hnp]
+  have hpr := parseInit_token (HttpM.sinkLogs m) 0
+  rw [← hbody] at hpr
+  have hopen : (HttpM.openS c m).2 = some (HttpM.session c m (Http.parseInit (HttpM.initBody c m).1)) := by
+    rcases openS_cases c m hi with ⟨e, he, _⟩ | h
+    · rw [hpr] at he; cases he
+    · rw [h]
+  have htok : (HttpM.session c m (Http.parseInit (HttpM.initBody c m).1)).tok = some 0 := by
+    simp [HttpM.session, hpr]
+  have key := hrun_exchange c m.prog hnp inputs _ 0 htok hin hall
+  have c10 := C10_exchange [] (playedFrom m.prog 0 inputs.length)
+  refine ⟨_, hopen, key, ?_, ?_, ?_⟩
+  · rw [key]; exact c10.2.2.1
+  · rw [key]; exact c10.2.2.2.1
+  · intro ha
+    rw [key, c10.2.2.1, (c10.2.2.2.2.1 ha).1]
+    simp [playedFrom]
 
 /-! ## Header -/
 
